@@ -244,9 +244,9 @@ impl WCase {
     }
 }
 
-pub const WOP_NAMES: [&str; 15] = [
+pub const WOP_NAMES: [&str; 16] = [
     "put_X", "put_slice", "put_bytes", "put(Buf)", "chunk_mut+advance_mut", "wrap limit(n)", "wrap chain_mut(self, leaf)", "wrap chain_mut(leaf, self)", "set_limit",
-    "writer().write", "writer().write_all+flush", "wrap &mut", "wrap Box", "observe", "inner target written through get_mut/first_mut/last_mut",
+    "writer().write", "writer().write_all+flush", "wrap &mut", "wrap Box", "observe", "inner target written through get_mut/first_mut/last_mut", "both halves of a Chain initialised through first_mut/last_mut, one advance_mut across the boundary",
 ];
 
 type Bad = Vec<(&'static str, &'static str, String)>;
@@ -259,7 +259,7 @@ pub struct WFlags {
     pub limit_edge: bool,
 }
 pub struct WStats {
-    pub ops: [u64; 15],
+    pub ops: [u64; 16],
     pub putters: [u64; 38],
     pub leaf_kinds: [u64; 7],
     pub panics: u64,
@@ -268,12 +268,14 @@ pub struct WStats {
     pub large_fills: u64,
     pub inner_direct: u64,
     pub dismantled: u64,
+    pub unfittable: u64,
+    pub cross_advance: u64,
     pub classes: [u64; 4],
 }
 
 impl Default for WStats {
     fn default() -> Self {
-        WStats { ops: [0; 15], putters: [0; 38], leaf_kinds: [0; 7], panics: 0, walks: 0, readbacks: 0, large_fills: 0, inner_direct: 0, dismantled: 0, classes: [0; 4] }
+        WStats { ops: [0; 16], putters: [0; 38], leaf_kinds: [0; 7], panics: 0, walks: 0, readbacks: 0, large_fills: 0, inner_direct: 0, dismantled: 0, unfittable: 0, cross_advance: 0, classes: [0; 4] }
     }
 }
 
@@ -474,7 +476,7 @@ impl<'a> WInterp<'a> {
         if self.root.is_none() {
             return;
         }
-        let code = code % 15;
+        let code = code % 16;
         let code = if crate::bufeng::digest_mode() && matches!(code, 9 | 10) { 13 } else { code };
         self.st.ops[code as usize] += 1;
         let room = self.model.room();
@@ -532,6 +534,30 @@ impl<'a> WInterp<'a> {
                         val = 0;
                     }
                     self.st.large_fills += 1;
+                }
+                // a fill that cannot fit whatever the target is: more than remaining_mut() says (also for growable targets, where
+                // remaining_mut() is usize::MAX - len or isize::MAX - len). Skipped when a saturated sum reports usize::MAX.
+                if a % 61 == 9 {
+                    let root = self.root.as_mut().unwrap();
+                    let rm = catch_unwind(AssertUnwindSafe(|| root.remaining_mut())).unwrap_or(usize::MAX);
+                    if rm < usize::MAX {
+                        let cnt = if b % 2 == 0 { rm + 1 } else { usize::MAX };
+                        wtr!(self, "put_bytes({:#x}, {}) [remaining_mut() = {}]", val, cnt, rm);
+                        let r = catch_unwind(AssertUnwindSafe(|| root.put_bytes(val, cnt)));
+                        self.st.unfittable += 1;
+                        self.dg ^= 0x51 ^ r.is_ok() as u64;
+                        self.dg = self.dg.wrapping_mul(0x100000001b3);
+                        if r.is_ok() {
+                            self.v("C11", "no-panic-when-write-does-not-fit", format!("put_bytes({:#x}, {}) returned normally with remaining_mut() = {}", val, cnt, rm));
+                        } else {
+                            self.flags.no_fit = true;
+                            self.st.panics += 1;
+                        }
+                        self.ended = true;
+                        let probe = false;
+                        self.observe(probe);
+                        return;
+                    }
                 }
                 let data = vec![val; n];
                 self.write_op(format!("put_bytes({:#x}, {})", val, n), &data, move |r| r.put_bytes(val, n));
@@ -713,6 +739,54 @@ impl<'a> WInterp<'a> {
                 self.model = WM::Wrap(Box::new(m));
                 self.depth += 1;
             }
+            15 => {
+                // The unsafe cursor API used the way its contract allows: initialise what is left of the first half and the
+                // first k bytes of the second half's chunk (through first_mut() / last_mut(), without advancing them), then
+                // ONE advance_mut on the Chain that spans the a/b boundary. a must be advanced by what it had left, b by the rest.
+                fn go(n: &mut NodeMut, m: &mut WM, b: u32, c: u64) -> Option<(String, bool)> {
+                    match (n, m) {
+                        (NodeMut::Boxed(bx), WM::Wrap(mi)) => go(&mut **bx, mi, b, c),
+                        (NodeMut::MutRef(r), WM::Wrap(mi)) => go(r.inner_mut(), mi, b, c),
+                        (NodeMut::Chain(ch), WM::Chain(ma, mb)) => {
+                            // the first half must be a fixed-size leaf with 1..=64 bytes left (one chunk), the second must have room
+                            let a_rem = match &**ma {
+                                WM::Leaf { fixed: Some(_), .. } => ma.room(),
+                                _ => return None,
+                            };
+                            if a_rem == 0 || a_rem > 64 || mb.room() == 0 {
+                                return None;
+                            }
+                            let d1: Vec<u8> = (0..a_rem).map(|i| 0x61 + ((i as u64 + c) % 26) as u8).collect();
+                            let r = catch_unwind(AssertUnwindSafe(|| {
+                                let ca = ch.first_mut().chunk_mut();
+                                assert!(ca.len() >= a_rem, "harness: first half hands out a shorter chunk than its room");
+                                ca[..a_rem].copy_from_slice(&d1);
+                                let cb = ch.last_mut().chunk_mut();
+                                let kb = cb.len().min(1 + (b as usize % 8));
+                                let d2: Vec<u8> = (0..kb).map(|i| 0x41 + ((i as u64 + c) % 26) as u8).collect();
+                                cb[..kb].copy_from_slice(&d2);
+                                d2
+                            }));
+                            let Ok(d2) = r else { return Some(("initialising the halves".to_string(), true)) };
+                            let total = a_rem + d2.len();
+                            let r = catch_unwind(AssertUnwindSafe(|| unsafe { ch.advance_mut(total) }));
+                            ma.write(&d1);
+                            mb.write(&d2);
+                            Some((format!("Chain::advance_mut({}) with {} left in the first half", total, a_rem), r.is_err()))
+                        }
+                        _ => None,
+                    }
+                }
+                let root = self.root.as_mut().unwrap();
+                if let Some((what, panicked)) = go(root, &mut self.model, b, c) {
+                    wtr!(self, "{}", what);
+                    self.st.cross_advance += 1;
+                    if panicked {
+                        self.v("C12", "unexpected-panic", format!("{} panicked although both halves have the room", what));
+                        self.ended = true;
+                    }
+                }
+            }
             14 => {
                 // reach into the outermost adapter and write one byte into an inner target directly; the adapter's own limit
                 // does not change, the inner target's room does (C12)
@@ -889,9 +963,9 @@ pub fn wspec_strategy() -> BoxedStrategy<WSpec> {
 }
 fn wop(prop: &str) -> BoxedStrategy<(u8, u32, u32, u64)> {
     let w: Vec<(u32, u8)> = if prop == "C12" {
-        vec![(3, 0), (3, 1), (1, 2), (2, 3), (2, 4), (4, 5), (2, 6), (2, 7), (4, 8), (5, 9), (3, 10), (1, 11), (1, 12), (3, 14)]
+        vec![(3, 0), (3, 1), (1, 2), (2, 3), (2, 4), (4, 5), (2, 6), (2, 7), (4, 8), (5, 9), (3, 10), (1, 11), (1, 12), (3, 14), (3, 15)]
     } else {
-        vec![(10, 0), (4, 1), (3, 2), (3, 3), (3, 4), (2, 5), (2, 6), (1, 7), (1, 8), (1, 9), (1, 10), (1, 11), (1, 12), (1, 14)]
+        vec![(10, 0), (4, 1), (3, 2), (3, 3), (3, 4), (2, 5), (2, 6), (1, 7), (1, 8), (1, 9), (1, 10), (1, 11), (1, 12), (1, 14), (1, 15)]
     };
     let ks: Vec<(u32, BoxedStrategy<u8>)> = w.into_iter().map(|(w, c)| (w, Just(c).boxed())).collect();
     (proptest::strategy::Union::new_weighted(ks), 0u32..4096, 0u32..4096, any::<u64>()).boxed()
@@ -940,7 +1014,7 @@ impl WCol {
         for x in &viols {
             t.push(format!("!! {} [{}] at step {}: {}", x.0, x.1, x.3, x.2));
         }
-        let opname = viols.iter().find(|x| x.0 == v.0).and_then(|x| c.ops.get(x.3)).map(|o| WOP_NAMES[(o.0 % 15) as usize]).unwrap_or("");
+        let opname = viols.iter().find(|x| x.0 == v.0).and_then(|x| c.ops.get(x.3)).map(|o| WOP_NAMES[(o.0 % 16) as usize]).unwrap_or("");
         self.viols.push(json!({"property": v.0, "oracle": v.1, "detail": v.2, "op": opname, "found_by": how, "profile": util::profile_name(), "replay": c.to_json(), "trace": t}));
     }
 }
@@ -1061,7 +1135,7 @@ pub fn main_bufmut(args: &Args) -> i32 {
     let out = json!({
         "engine": "bufmut", "property": prop, "profile": util::profile_name(), "seed": seed, "worker": worker,
         "evaluations": col.evals, "nontrivial_distinct_this_worker": col.nontriv.len(), "exhaustive": exhaustive,
-        "histogram": {"write_ops": ops, "target_leaf_kinds": kinds, "typed_writes": puts, "expected_panics(write does not fit)": st.panics, "structural_walks": st.walks, "read_backs": st.readbacks, "large_fills(>=128KiB)": st.large_fills, "direct_inner_writes": st.inner_direct, "trees_dismantled_with_into_inner": st.dismantled,
+        "histogram": {"write_ops": ops, "target_leaf_kinds": kinds, "typed_writes": puts, "expected_panics(write does not fit)": st.panics, "structural_walks": st.walks, "read_backs": st.readbacks, "large_fills(>=128KiB)": st.large_fills, "direct_inner_writes": st.inner_direct, "trees_dismantled_with_into_inner": st.dismantled, "fills_larger_than_remaining_mut": st.unfittable, "advance_mut_across_a_chain_boundary": st.cross_advance,
             "required_classes": {"write straddled a chunk end": st.classes[0], "growable target grew": st.classes[1], "write did not fit": st.classes[2], "write ended exactly at a chunk end / limit / capacity": st.classes[3]},
             "cases_ended_by_another_property's_violation": col.foreign},
         "samples": col.samples, "violations": col.viols,
